@@ -3,19 +3,21 @@
 //! persistent: one request per line `<op> <hx>`, one answer per line `V <text>` | `P <panic message>`.
 use crate::util::*;
 use std::io::{BufRead, BufReader, Write};
-use std::process::{Child, ChildStdin, ChildStdout, Command, Stdio};
+use std::process::{Child, ChildStdin, Command, Stdio};
 use std::sync::Mutex;
 
 pub enum Outcome {
     Value(String),
     Panic(String),
     Abort(String),
+    /// no answer within the time limit: the operation never returned (the child was killed)
+    Hang,
 }
 
 struct Kid {
     child: Child,
     stdin: ChildStdin,
-    stdout: BufReader<ChildStdout>,
+    lines: std::sync::mpsc::Receiver<String>,
 }
 
 static KID: Mutex<Option<Kid>> = Mutex::new(None);
@@ -30,24 +32,45 @@ fn spawn() -> Kid {
         .spawn()
         .expect("spawn child");
     let stdin = child.stdin.take().unwrap();
-    let stdout = BufReader::new(child.stdout.take().unwrap());
-    Kid { child, stdin, stdout }
+    let mut stdout = BufReader::new(child.stdout.take().unwrap());
+    let (tx, rx) = std::sync::mpsc::channel();
+    std::thread::spawn(move || loop {
+        let mut line = String::new();
+        match stdout.read_line(&mut line) {
+            Ok(n) if n > 0 => { if tx.send(line).is_err() { break; } }
+            _ => break,
+        }
+    });
+    Kid { child, stdin, lines: rx }
 }
 
 pub fn guarded(op: &str, input: &[u8]) -> Outcome {
+    guarded_timeout(op, input, std::time::Duration::from_secs(120))
+}
+
+pub fn guarded_timeout(op: &str, input: &[u8], limit: std::time::Duration) -> Outcome {
     let mut g = KID.lock().unwrap();
     if g.is_none() {
         *g = Some(spawn());
     }
     let kid = g.as_mut().unwrap();
     let req = format!("{} {}\n", op, hx(input));
-    let mut line = String::new();
-    let ok = kid.stdin.write_all(req.as_bytes()).is_ok() && kid.stdin.flush().is_ok() && kid.stdout.read_line(&mut line).map(|n| n > 0).unwrap_or(false);
-    if !ok {
-        let status = kid.child.wait().map(|s| format!("{s}")).unwrap_or_else(|_| "unknown".into());
-        *g = None;
-        return Outcome::Abort(status);
-    }
+    let sent = kid.stdin.write_all(req.as_bytes()).is_ok() && kid.stdin.flush().is_ok();
+    let line = if sent { kid.lines.recv_timeout(limit) } else { Err(std::sync::mpsc::RecvTimeoutError::Disconnected) };
+    let line = match line {
+        Ok(l) => l,
+        Err(std::sync::mpsc::RecvTimeoutError::Timeout) => {
+            let _ = kid.child.kill();
+            let _ = kid.child.wait();
+            *g = None;
+            return Outcome::Hang;
+        }
+        Err(_) => {
+            let status = kid.child.wait().map(|s| format!("{s}")).unwrap_or_else(|_| "unknown".into());
+            *g = None;
+            return Outcome::Abort(status);
+        }
+    };
     let line = line.trim_end_matches('\n');
     if let Some(v) = line.strip_prefix("V ") {
         Outcome::Value(v.to_string())
